@@ -523,13 +523,20 @@ let handle_lit fields =
      | "int" | "intx" ->
        let m = match Literals.int_value (codes txt) with Some v -> string_of_n v | None -> "none" in
        let a = field "ast" impl in
-       if m <> a then mismatch "lit" input ("ast=" ^ a) ("ast=" ^ m)
+       if m <> a then begin
+         mismatch "lit" input ("ast=" ^ a) ("ast=" ^ m);
+         (* the model is the reference reading of the literal *)
+         oracle_fail "lit" input ("FAIL C10: the integer literal is read as " ^ a ^ " instead of " ^ m)
+       end
      | "bits" ->
        let body = Literals.between_quotes (codes txt) in
        (match body with
         | Some b ->
           let m = Printf.sprintf "str=%s;ty=BitArray D1 %s 1" (String.concat " " (L.map string_of_n b)) (string_of_n (Literals.bit_width b)) in
-          if m <> impl then mismatch "lit" input impl m;
+          if m <> impl then begin
+            mismatch "lit" input impl m;
+            oracle_fail "lit" input ("FAIL C10: the bit string is recorded as [" ^ impl ^ "] instead of its bits verbatim with their count as width [" ^ m ^ "]")
+          end;
           if string_of_n (Literals.bit_width b) <> expected then oracle_fail "lit" input "FAIL C10: model width differs from the number of bits generated"
         | None -> mismatch "lit" input impl "none")
      | _ -> ());
